@@ -27,6 +27,10 @@ EXPLANATION = (
 ASSUMPTIONS = [
     "fields hold ints or None (the property's quantifier: values inside/on/outside ranges and None); other types are out of scope",
     "spec/ranges.json transcribes the ranges of the property statement",
+    "a validation condition that calls a repository function on one integer field (e.g. Modulation.pick_by_bl(len(burst))) is folded on "
+    "critical points: the callee is checked to use its argument only inside comparisons, and the points are c-1, c, c+1 for every integer "
+    "the involved modules' literals, module constants and class attributes (enum member tuples) fold to; between two neighbouring points "
+    "the result is required to agree at both ends and taken as constant",
 ]
 
 F = rel("data_msg")
